@@ -78,6 +78,18 @@ M = [
      "      SVSetBase<R>::remove(perm);\n\n      for(int i = 0; i < j; ++i)\n      {\n         if(perm[i] >= 0 && perm[i] != i)", "      SVSetBase<R>::remove(perm);\n\n      for(int i = 0; i < j; ++i)\n      {\n         if(perm[i] > 0 && perm[i] != i)"),
     ('C06', 'lower-compared-with-plus-infinity', 'R06.S1', 'src/soplex/changesoplex.hpp',
      "      if(newLower <= R(-infinity))", "      if(newLower <= R(infinity))"),
+    # C10 (floating-point LU)
+    ('C10', 'diagonal-by-column-index', 'R10.1', 'src/soplex/clufactor.hpp',
+     "   n = 0;\n\n   for(i = thedim - 1; i >= 0; --i)\n   {\n      r = rorig[i];\n      x = diag[r] * rhs[r];\n\n      if(isNotZero(x, eps))",
+     "   n = 0;\n\n   for(i = thedim - 1; i >= 0; --i)\n   {\n      r = rorig[i];\n      c = corig[i];\n      x = diag[c] * rhs[r];\n\n      if(isNotZero(x, eps))"),
+    ('C10', 'singular-without-return', 'R10.2', 'src/soplex/clufactor.hpp',
+     "      else if(k == 0)\n      {\n         this->stat = SLinSolver<R>::SINGULAR;\n         return;\n      }\n   }", "      else if(k == 0)\n      {\n         this->stat = SLinSolver<R>::SINGULAR;\n      }\n   }"),
+    ('C10', 'second-rhs-with-first-count', 'R10.3', 'src/soplex/clufactor.hpp',
+     "   rn = vSolveUright(vec, idx, rhs, ridx, rn, eps);\n\n   vSolveUrightNoNZ(vec2, rhs2, ridx2, rn2, eps2);\n\n   /*\n    *  rn = vSolveUright2(",
+     "   rn = vSolveUright(vec, idx, rhs, ridx, rn, eps);\n\n   vSolveUrightNoNZ(vec2, rhs2, ridx2, rn, eps2);\n\n   /*\n    *  rn = vSolveUright2("),
+    ('C10', 'second-rhs-skips-update-stage', 'R10.3', 'src/soplex/clufactor.hpp',
+     "      rn = vSolveUpdateRight(vec, idx, rn, eps);\n      vSolveUpdateRightNoNZ(vec2, eps2);\n   }\n\n   return rn;",
+     "      rn = vSolveUpdateRight(vec, idx, rn, eps);\n   }\n\n   return rn;"),
     ('C17', 'basis-backpointer-not-rebound', 'R17.6', 'src/soplex/spxsolver.hpp', "         SPxBasisBase<R>::theLP = this;\n\n         assert(!freePricer", "         assert(!freePricer"),
     ('C17', 'guard-reads-destination', 'R17.5', 'src/soplex/slufactor.hpp', "   if(!old.l.rval.empty())", "   if(!this->l.rval.empty())"),
     ('C18', 'mutable-global-counter', 'R18.1', 'src/soplex/spxout.cpp',
